@@ -9,7 +9,7 @@ import (
 
 func init() {
 	register("C12", runC12, propMeta{
-		Explanation: "Decides, for all rule sets and name lists, how the 11 ExecuteSelected* functions choose and order rules: (N1) the local rule slice is filled only by appending, on the ok-edge, the hit of a comma-ok lookup of each caller-supplied name (ranged forward) in the container's name map, and has no other store; the looked-up value is never used on the miss edge (no nil dereference); (N3) every rule execution and go statement is dominated by the knowledge that the slice is non-empty and the empty case returns a new error; (N4) in the selected N-M variants a miss returns a new error with nothing running and n+m == len(names) is checked first; (N2) sorted variants sort that slice (descending salience, C04-O1) on every path before ranging it, the AsGivenSortedName variants contain no sort of it at all; (N5) every stage, and every synchronous single execution, takes its rules from that slice — the whole of it for the sort/concurrent variants, the partitions/windows checked in C05 for mix, inverse-mix and N-M. Not decided: rule bodies. The pool's selected methods call the engine method of their own name with their own arguments, each in its place (N8). (N9) the pool's dispatcher by execution model hands a selection to the selected method of that model only. (N10) a faulting rule fails. (N11) a removal installs a fresh container whose name map, sorted list and index hold exactly the rules not named: a removed rule is an unknown name.",
+		Explanation: "Decides, for all rule sets and name lists, how the 11 ExecuteSelected* functions choose and order rules: (N1) the local rule slice is filled only by appending, on the ok-edge, the hit of a comma-ok lookup of each caller-supplied name (ranged forward) in the container's name map, and has no other store; the looked-up value is never used on the miss edge (no nil dereference); (N3) every rule execution and go statement is dominated by the knowledge that the slice is non-empty and the empty case returns a new error; (N4) in the selected N-M variants a miss returns a new error with nothing running and n+m == len(names) is checked first; (N2) sorted variants sort that slice (descending salience, C04-O1) on every path before ranging it, the AsGivenSortedName variants contain no sort of it at all; (N5) every stage, and every synchronous single execution, takes its rules from that slice — the whole of it for the sort/concurrent variants, the partitions/windows checked in C05 for mix, inverse-mix and N-M. Not decided: rule bodies. The pool's selected methods call the engine method of their own name with their own arguments, each in its place (N8). (N9) the pool's dispatcher by execution model hands a selection to the selected method of that model only. (N10) a faulting rule fails. (N11) a removal installs a fresh container whose name map, sorted list and index hold exactly the rules not named: a removed rule is an unknown name. (N12) every way through one step of the incremental merge writes the name map as well as the list, so a selected call finds the version the update installed.",
 		Assumptions: []string{"Go map lookup semantics", "sort.SliceStable"},
 		Trusted:     commonTrusted,
 	})
@@ -38,6 +38,15 @@ func runC12(c *Ctx) {
 	c.ruleModelTable("N9-selected-dispatch-runs-the-selection-only")
 	c.only = nil
 	c.Min("N9-selected-dispatch-runs-the-selection-only", 4)
+	// "the named rules that exist" are looked up in the name map, the order comes from the rule found
+	// there: after an incremental update both are the new version only if every way through one merge
+	// step writes the name map as well as the list (the merge model of C08-H2..H5 on both copies)
+	for _, spec := range [][3]string{{"builder", "RuleBuilder", "BuildRuleWithIncremental"}, {"engine", "", "updateIncremental"}} {
+		if f := c.MustFn("N12-name-map-follows-the-update", spec[0], spec[1], spec[2]); f != nil {
+			c.mergeModel("N12-name-map-follows-the-update", f)
+		}
+	}
+	c.Min("N12-name-map-follows-the-update", 30)
 	// a rule that faults fails: RuleEntity.Execute turns a panic of the rule body into its (named) error
 	// result (C09-R1 for this function); without that a faulting rule counts as a success and whatever the
 	// model makes depend on "nothing before failed" runs all the same
